@@ -171,6 +171,48 @@ def schemaDiff (frm to : List Table) : List Change :=
     (fun a b => let cs := tableDiff a b; if cs.isEmpty then none else some (.modifyTable b.name cs))
     (fun t => .dropTable t.name) (fun t => .addTable t.name) frm to
 
+/-! ### skipped change kinds (`schema.DiffSkipChanges`: `DiffOptions.AddOrSkip` at every level) -/
+
+inductive Kind
+  | addTable | dropTable | modifyTable
+  | addColumn | dropColumn | modifyColumn
+  | addIndex | dropIndex | modifyIndex
+  | addFK | dropFK | modifyFK
+  | addCheck | dropCheck | modifyCheck
+  | addPK | dropPK | modifyPK
+  | attr
+deriving DecidableEq, Repr, Inhabited
+
+def TChange.kind : TChange → Kind
+  | .modifyAttr => .attr
+  | .dropCheck _ => .dropCheck | .modifyCheck _ _ => .modifyCheck | .addCheck _ => .addCheck
+  | .dropColumn _ => .dropColumn | .modifyColumn _ _ => .modifyColumn | .addColumn _ => .addColumn
+  | .addPK => .addPK | .dropPK => .dropPK | .modifyPK _ => .modifyPK
+  | .dropIndex _ => .dropIndex | .modifyIndex _ _ => .modifyIndex | .addIndex _ => .addIndex
+  | .dropFK _ => .dropFK | .modifyFK _ _ => .modifyFK | .addFK _ => .addFK
+
+def Change.kind : Change → Kind
+  | .dropTable _ => .dropTable
+  | .modifyTable _ _ => .modifyTable
+  | .addTable _ => .addTable
+
+/-- the changes inside a table that are not skipped. -/
+def skipT (sk : List Kind) (cs : List TChange) : List TChange := cs.filter (fun c => !sk.contains c.kind)
+
+/-- one top-level change under the skip list: a table modification keeps its unskipped sub-changes and
+disappears when none is left (`len(change) > 0`) or when ModifyTable itself is skipped. -/
+def skipC (sk : List Kind) : Change → Option Change
+  | .modifyTable n subs =>
+    let s := skipT sk subs
+    if s.isEmpty || sk.contains .modifyTable then none else some (.modifyTable n s)
+  | c => if sk.contains c.kind then none else some c
+
+/-- `SchemaDiff(from, to, DiffSkipChanges(sk...))`. -/
+def skipDiff (sk : List Kind) (cs : List Change) : List Change := cs.filterMap (skipC sk)
+
+/-- `SchemaDiff` with skipped kinds. -/
+def schemaDiffSkip (sk : List Kind) (frm to : List Table) : List Change := skipDiff sk (schemaDiff frm to)
+
 /-! ### schema objects (PostgreSQL enum types): `SchemaObjectDiff` of sql/postgres/driver_oss.go -/
 
 structure EnumObj where
